@@ -454,7 +454,7 @@ class World:
         if spec != rspec:
             # the node strips the decoded text: a specifier that consists of characters Python counts as white space
             # (\x1c-\x1f, \x85, \xa0 ... - not stripped from the raw bytes) is no specifier for it; accepted either way
-            if rspec.strip() == '' and spec == '':
+            if spec == rspec.strip():
                 return None
             return f'C07/reply-specifier-not-echoed/{ract}'
         return None
